@@ -185,7 +185,8 @@ def get_tau_cases(rng, n):
 # ---------------------------------------------------------------- function classes
 
 def pw_values(rng, n, lo=-4, hi=4):
-    return [Fr(rng.randint(lo, hi)) for _ in range(n)]
+    # quarters, not integers: a truncation to int somewhere (dtype inherited from integer breakpoints) must show
+    return [Fr(rng.randint(4 * lo, 4 * hi), 4) for _ in range(n)]
 
 
 def pwc_on(rng, T, inner):
@@ -476,8 +477,10 @@ def disordered_list(rng):
         e0 = ts + rng.choice([0, 0, 0, 1])
         e1 = te - rng.choice([0, 0, 0, 1])
         raw.append((r, e0, e1))
-    # make sure the common interval is [ts, te] for at least one train
-    raw[0] = (raw[0][0], ts, te)
+    # make sure the common interval is [ts, te]: one train (at a random position - not always the first, so that
+    # a train listed EARLIER can have spikes outside its own edges but inside the common interval) spans it
+    k = rng.randrange(len(raw))
+    raw[k] = (raw[k][0], ts, te)
     return raw, ts, te
 
 
